@@ -96,6 +96,14 @@ func scenarioC05(r *Run) {
 		b, victim = r.c05Twins(t, ent)
 	} else if t.Bool(1, 20, "c05.many") {
 		b, victim = r.c05ManySigners(t, fm, ent)
+	} else if t.Bool(1, 10, "c05.deep") {
+		// long chains of nested countersignatures (a countersignature on a
+		// countersignature on ...): the rules hold in every layer however deep
+		// the damage lands
+		deep := to
+		deep.CsigDepth, deep.ForeignPct = 7, 70
+		b, victim = r.damagedInput(t, fm, ent, deep, 2)
+		r.Probe("damage-in-deep-countersignature-chain")
 	} else {
 		b, victim = r.damagedInput(t, fm, ent, to, 2)
 	}
